@@ -8,15 +8,12 @@
   `Conn d` is the equivalence closure of the attachment relation `Adj d` (Spec.lean), defined
   without reference to the algorithm.
 
-  Full-strength statement that is NOT proved (kept here on purpose):
-    theorem trace_all_total : WF d → WFNet d → Sorted d → IsHWire d x ∨ IsHPin d x →
-        (getHWires d (.href x) rec .all).2 = true
-  i.e. that the fuel `traceFuel d` always suffices under `Sorted` (it bounds the number of
-  elaborated pins and wires).  Missing: the potential-function argument for `Reach.go` over the
-  finite universe of valid hierarchical pins/wires.  The driver reports the flag on every query and
-  the harness treats `false` as a broken obligation, so the gap is observable, never silent.
+  `trace_all_total` (below) proves that under `Acyclic d` the fuel the model gives the closure always
+  suffices (potential-function argument over the finite universe of valid hierarchical pins and
+  wires, LemmasReach.go_finished / LemmasFuel.traceAll_finished), so `trace_all_spec_total` carries
+  no `finished` hypothesis.  The driver still reports the flag and the harness still checks it.
 -/
-import Spydr.Hier.LemmasTrace
+import Spydr.Hier.LemmasFuel
 import Spydr.Hier.Example
 
 namespace Spydr.Hier
@@ -277,6 +274,65 @@ theorem hpins_of_hwire_valid {d : Design} (hwf : WF d) (x : HRef) (rec : Bool) (
   | inside => exact Or.inl rfl
   | outside => exact Or.inr rfl
 
+
+/-! ### the closure always finishes (fuel sufficiency) -/
+
+theorem traceInit_valid {d : Design} (hwf : WF d) (x : HRef) : ∀ y ∈ traceInit d x, IsHPin d y ∨ IsHWire d y := by
+  intro y hy
+  unfold traceInit at hy
+  cases hres : resolve d x with
+  | none => rw [hres] at hy; cases hy
+  | some e =>
+    rw [hres] at hy
+    have ho := resolve_sound d x e hres
+    cases e with
+    | inst i => cases hy
+    | port P =>
+      obtain ⟨q, hq, rfl⟩ := List.mem_map.mp hy
+      exact Or.inl ⟨P, q, Occ.pin ho hq⟩
+    | pin P q =>
+      simp only [List.mem_singleton] at hy
+      subst hy
+      exact Or.inl ⟨P, q, ho⟩
+    | cable C =>
+      obtain ⟨w, hw, rfl⟩ := List.mem_map.mp hy
+      exact Or.inr ⟨C, w, Occ.wire ho hw⟩
+    | wire C w =>
+      simp only [List.mem_singleton] at hy
+      subst hy
+      exact Or.inr ⟨C, w, ho⟩
+
+/-- **fuel sufficiency**: for an acyclic design, `get_hwires(x, ALL)` of the model always terminates
+    with `finished = true`, from any valid hierarchical wire, pin, cable or port. -/
+theorem trace_all_total {d : Design} (hwf : WF d) (hnn : WFNet d) (hs : Acyclic d) (x : HRef) (rec : Bool)
+    (hx : IsHWire d x ∨ IsHPin d x ∨ IsHCable d x ∨ IsHPort d x) :
+    (getHWires d (.href x) rec .all).2 = true := by
+  rw [getHWires_href]
+  simp only
+  have hk : ∀ i, resolve d x ≠ some (.inst i) := by
+    intro i
+    rcases hx with ⟨C, w', ho⟩ | ⟨P, q, ho⟩ | ⟨C, ho⟩ | ⟨P, ho⟩ <;> rw [resolve_complete hwf ho] <;> simp
+  have hv : resolve d x ≠ none := by
+    rcases hx with ⟨C, w', ho⟩ | ⟨P, q, ho⟩ | ⟨C, ho⟩ | ⟨P, ho⟩ <;> rw [resolve_complete hwf ho] <;> simp
+  rw [hwiresOfHRef_all d x rec hk hv]
+  exact traceAll_finished hwf hnn hs _ (traceInit_valid hwf x)
+
+/-- **C12, selection ALL, unconditional form** (no `finished` hypothesis). -/
+theorem trace_all_spec_total {d : Design} (hwf : WF d) (hnn : WFNet d) (hs : Acyclic d) (x : HRef) (rec : Bool)
+    (hx : IsHWire d x ∨ IsHPin d x) :
+    (∀ w, w ∈ (getHWires d (.href x) rec .all).1 ↔ IsHWire d w ∧ Conn d x w) ∧
+    (getHWires d (.href x) rec .all).1.Nodup ∧ (getHWires d (.href x) rec .all).2 = true := by
+  have hfin := trace_all_total hwf hnn hs x rec (by rcases hx with h | h; exact Or.inl h; exact Or.inr (Or.inl h))
+  obtain ⟨h1, h2⟩ := trace_all_spec hwf hnn x rec hx hfin
+  exact ⟨h1, h2, hfin⟩
+
+/-- members of one net give the same answer — unconditional form -/
+theorem trace_same_answer_total {d : Design} (hwf : WF d) (hnn : WFNet d) (hs : Acyclic d) (x y : HRef) (rec : Bool)
+    (hx : IsHWire d x ∨ IsHPin d x) (hy : IsHWire d y ∨ IsHPin d y) (hc : Conn d x y) (w : HRef) :
+    w ∈ (getHWires d (.href x) rec .all).1 ↔ w ∈ (getHWires d (.href y) rec .all).1 :=
+  trace_same_answer hwf hnn x y rec hx hy hc
+    (trace_all_total hwf hnn hs x rec (by rcases hx with h | h; exact Or.inl h; exact Or.inr (Or.inl h)))
+    (trace_all_total hwf hnn hs y rec (by rcases hy with h | h; exact Or.inl h; exact Or.inr (Or.inl h))) w
 
 /-! ### non-vacuity: the hypotheses hold on a concrete three-level design with a shared definition,
     and the statements have content there (the start wire touches only instance pins — the shape on
